@@ -45,6 +45,15 @@ CHECKS["C17"] = dict(
     design="5/C17",
 )
 
+CHECKS["C01"] = dict(
+    technique="differential execution (fuel-bounded, deterministic) of generated closed programs before/after format_code under drawn option combinations; culprit rule by pipeline bisection; delta-debugged replays",
+    text="Rule-idiom families (31, with placements), compositions and Hypothesis grammar programs are formatted under drawn {safe, keep_imports, "
+         "preserve subset, line length} combinations; the formatted program must terminate normally with identical stdout. Failures are attributed "
+         "to the first rule call whose output changes behaviour and bucketed by (rule, failure class).",
+    note="Programs are small (<= ~30 lines), closed and deterministic; behaviour is sampled, not proven; six design-level findings (F-C01-01..06) are excluded by construction; tool crashes are left to C04.",
+    design="5/C01",
+)
+
 NOT_YET = {}
 
 
